@@ -53,4 +53,337 @@ theorem lowerFirst_isOk (s : Name) (h : s ≠ []) : ∃ r, lowerFirst s = .ok r 
   | nil => exact absurd rfl h
   | cons c cs => exact ⟨toLowerC c :: cs, by simp [lowerFirst, goIndex_zero_cons]⟩
 
+
+/-! ### Typedef resolution -/
+
+theorem firstErr_ok {f : α → CRes Unit} {l : List α} (h : firstErr f l = .ok ()) : ∀ a ∈ l, f a = .ok () := by
+  induction l with
+  | nil => intro a ha; cases ha
+  | cons x xs ih =>
+    intro a ha
+    unfold firstErr at h
+    cases hx : f x with
+    | ok u =>
+      rw [hx] at h
+      cases ha with
+      | head => exact hx
+      | tail _ hm => exact ih h a hm
+    | err e => rw [hx] at h; cases h
+    | panic p => rw [hx] at h; cases h
+
+theorem firstErr_of_all {f : α → CRes Unit} {l : List α} (h : ∀ a ∈ l, f a = .ok ()) : firstErr f l = .ok () := by
+  induction l with
+  | nil => rfl
+  | cons x xs ih =>
+    unfold firstErr
+    rw [h x (List.mem_cons_self)]
+    exact ih (fun a ha => h a (List.mem_cons_of_mem _ ha))
+
+theorem guardV_ok {b : Bool} {e : VErr} (h : guardV b e = .ok ()) : b = true := by
+  unfold guardV at h
+  cases b <;> simp at h ⊢
+
+theorem tdLookup_mem {tds : List Typedef} {n : Name} {t : Ty} (h : tdLookup tds n = some t) :
+    ∃ td ∈ tds, td.ty = t := by
+  induction tds with
+  | nil => cases h
+  | cons td tds ih =>
+    unfold tdLookup at h
+    cases hr : tdLookup tds n with
+    | some t' =>
+      rw [hr] at h
+      cases h
+      obtain ⟨td', hm, ht⟩ := ih hr
+      exact ⟨td', List.mem_cons_of_mem _ hm, ht⟩
+    | none =>
+      rw [hr] at h
+      by_cases hn : td.name = n
+      · simp [hn] at h
+        exact ⟨td, List.mem_cons_self, h⟩
+      · simp [hn] at h
+
+theorem lookup_mem {l : List (Name × File)} {k : Name} {f : File} (h : l.lookup k = some f) : (k, f) ∈ l := by
+  induction l with
+  | nil => cases h
+  | cons x xs ih =>
+    obtain ⟨k', f'⟩ := x
+    unfold List.lookup at h
+    by_cases hk : k == k'
+    · simp [hk] at h
+      have : k = k' := by simpa using hk
+      subst this; subst h
+      exact List.mem_cons_self
+    · simp [hk] at h
+      exact List.mem_cons_of_mem _ (ih h)
+
+/-- Every type a typedef hop can produce is the right-hand side of a typedef that the cycle
+check of `validateTypedefs` starts a walk from. -/
+theorem typedefTarget_mem {ctx : Ctx} {t t' : Ty} (h : typedefTarget ctx t = some t') :
+    ∃ td ∈ allTypedefs ctx, td.ty = t' := by
+  unfold typedefTarget at h
+  unfold allTypedefs
+  by_cases hi : includeName t.name ≠ []
+  · rw [if_pos hi] at h
+    cases hl : ctx.incs.lookup (includeName t.name) with
+    | none => rw [hl] at h; cases h
+    | some f =>
+      rw [hl] at h
+      obtain ⟨td, hm, ht⟩ := tdLookup_mem h
+      refine ⟨td, ?_, ht⟩
+      apply List.mem_append_right
+      rw [List.mem_flatten]
+      exact ⟨f.typedefs, List.mem_map.mpr ⟨(includeName t.name, f), lookup_mem hl, rfl⟩, hm⟩
+  · rw [if_neg hi] at h
+    obtain ⟨td, hm, ht⟩ := tdLookup_mem h
+    exact ⟨td, List.mem_append_left _ hm, ht⟩
+
+theorem underlying_of_walkEnds (ctx : Ctx) : ∀ (n : Nat) (t : Ty), walkEnds ctx n t = true →
+    ∀ fuel, n + 1 ≤ fuel → ∃ r, underlying ctx fuel t = .ok r := by
+  intro n
+  induction n with
+  | zero =>
+    intro t h fuel hf
+    obtain ⟨k, rfl⟩ : ∃ k, fuel = k + 1 := ⟨fuel - 1, by omega⟩
+    unfold walkEnds at h
+    unfold underlying
+    cases ht : typedefTarget ctx t with
+    | none => exact ⟨t, rfl⟩
+    | some t' => rw [ht] at h; simp at h
+  | succ n ih =>
+    intro t h fuel hf
+    obtain ⟨k, rfl⟩ : ∃ k, fuel = k + 1 := ⟨fuel - 1, by omega⟩
+    unfold walkEnds at h
+    unfold underlying
+    cases ht : typedefTarget ctx t with
+    | none => exact ⟨t, rfl⟩
+    | some t' =>
+      rw [ht] at h
+      exact ih t' h k (by omega)
+
+theorem validateTypedefs_walks {ctx : Ctx} (h : validateTypedefs ctx = .ok ()) :
+    ∀ td ∈ allTypedefs ctx, walkEnds ctx (typedefLimit ctx) td.ty = true := by
+  unfold validateTypedefs at h
+  cases h1 : firstErr (fun td => guardV (isValidType ctx td.ty) .typedefType) ctx.self.typedefs with
+  | ok u =>
+    rw [h1] at h
+    simp only [CRes.bind_ok] at h
+    intro td hm
+    exact guardV_ok (firstErr_ok h td hm)
+  | err e => rw [h1] at h; cases h
+  | panic p => rw [h1] at h; cases h
+
+/-- After validation, typedef resolution terminates for EVERY type with the stack the limit allows. -/
+theorem underlying_ok_of_validated {ctx : Ctx} (h : validateTypedefs ctx = .ok ()) (t : Ty) (fuel : Nat)
+    (hf : typedefLimit ctx + 2 ≤ fuel) : ∃ r, underlying ctx fuel t = .ok r := by
+  obtain ⟨k, rfl⟩ : ∃ k, fuel = k + 1 := ⟨fuel - 1, by omega⟩
+  unfold underlying
+  cases ht : typedefTarget ctx t with
+  | none => exact ⟨t, rfl⟩
+  | some t' =>
+    obtain ⟨td, hm, rfl⟩ := typedefTarget_mem ht
+    exact underlying_of_walkEnds ctx _ _ (validateTypedefs_walks h td hm) k (by omega)
+
+/-- A set of types closed under the typedef hop in which every member has a hop: resolution
+from a member never stops (this is what a typedef cycle is, of any length). -/
+theorem walkEnds_false_of_closed (ctx : Ctx) (S : Ty → Prop)
+    (hS : ∀ t, S t → ∃ t', typedefTarget ctx t = some t' ∧ S t') :
+    ∀ (n : Nat) (t : Ty), S t → walkEnds ctx n t = false := by
+  intro n
+  induction n with
+  | zero =>
+    intro t ht
+    obtain ⟨t', h1, _⟩ := hS t ht
+    unfold walkEnds; rw [h1]
+  | succ n ih =>
+    intro t ht
+    obtain ⟨t', h1, h2⟩ := hS t ht
+    unfold walkEnds; rw [h1]
+    exact ih t' h2
+
+theorem firstErr_guard_not_panic {g : α → Bool} {e : VErr} (l : List α) :
+    ∀ p, firstErr (fun a => guardV (g a) e) l ≠ .panic p := by
+  induction l with
+  | nil => intro p h; cases h
+  | cons x xs ih =>
+    intro p
+    unfold firstErr
+    cases hg : g x <;> simp [guardV]
+    exact ih p
+
+theorem validateTypedefs_not_panic (ctx : Ctx) : ∀ p, validateTypedefs ctx ≠ .panic p := by
+  intro p
+  unfold validateTypedefs
+  cases h1 : firstErr (fun td => guardV (isValidType ctx td.ty) .typedefType) ctx.self.typedefs with
+  | ok u => simp only [CRes.bind_ok]; exact firstErr_guard_not_panic _ p
+  | err e => intro h; cases h
+  | panic q => exact absurd h1 (firstErr_guard_not_panic _ q)
+
+theorem validateTypedefs_rejects_closed (ctx : Ctx) (S : Ty → Prop)
+    (hS : ∀ t, S t → ∃ t', typedefTarget ctx t = some t' ∧ S t') (t0 : Ty) (h0 : S t0) :
+    ∃ e, validateTypedefs ctx = .err e := by
+  cases hv : validateTypedefs ctx with
+  | err e => exact ⟨e, rfl⟩
+  | panic p => exact absurd hv (validateTypedefs_not_panic ctx p)
+  | ok u =>
+    exfalso
+    cases u
+    obtain ⟨t1, h1, hs1⟩ := hS t0 h0
+    obtain ⟨td, hm, rfl⟩ := typedefTarget_mem h1
+    have := validateTypedefs_walks hv td hm
+    rw [walkEnds_false_of_closed ctx S hS _ _ hs1] at this
+    cases this
+
+
+/-! ### `validate` as the conjunction of its parts -/
+
+theorem CRes.bind_ok_inv {x : CRes α} {f : α → CRes β} {b : β} (h : (x >>= f) = .ok b) :
+    ∃ a, x = .ok a ∧ f a = .ok b := by
+  cases x with
+  | ok a => exact ⟨a, rfl, h⟩
+  | err e => cases h
+  | panic p => cases h
+
+/-- The parts of `validate`, read off its `do` chain. -/
+structure FileChecks (ctx : Ctx) : Prop where
+  names : validateNames ctx.self = .ok ()
+  vendor : guardV (!ctx.self.vendorWild) .vendorWildcard = .ok ()
+  includes : validateIncludes [] ctx.self.includes = .ok ()
+  consts : firstErr (validateConstant ctx) ctx.self.consts = .ok ()
+  typedefs : validateTypedefs ctx = .ok ()
+  structs : validateKind ctx .struct = .ok ()
+  unions : validateKind ctx .union = .ok ()
+  exceptions : validateKind ctx .exception = .ok ()
+  services : validateServices ctx = .ok ()
+  scopes : validateScopes ctx = .ok ()
+
+theorem validateFile_ok_iff (ctx : Ctx) : validateFile ctx = .ok () ↔ FileChecks ctx := by
+  constructor
+  · intro h
+    unfold validateFile at h
+    obtain ⟨⟨⟩, h1, h⟩ := CRes.bind_ok_inv h
+    obtain ⟨⟨⟩, h2, h⟩ := CRes.bind_ok_inv h
+    obtain ⟨⟨⟩, h3, h⟩ := CRes.bind_ok_inv h
+    obtain ⟨⟨⟩, h4, h⟩ := CRes.bind_ok_inv h
+    obtain ⟨⟨⟩, h5, h⟩ := CRes.bind_ok_inv h
+    obtain ⟨⟨⟩, h6, h⟩ := CRes.bind_ok_inv h
+    obtain ⟨⟨⟩, h7, h⟩ := CRes.bind_ok_inv h
+    obtain ⟨⟨⟩, h8, h⟩ := CRes.bind_ok_inv h
+    obtain ⟨⟨⟩, h9, h⟩ := CRes.bind_ok_inv h
+    exact ⟨h1, h2, h3, h4, h5, h6, h7, h8, h9, h⟩
+  · intro c
+    unfold validateFile
+    simp only [c.names, c.vendor, c.includes, c.consts, c.typedefs, c.structs, c.unions, c.exceptions, c.services,
+      c.scopes, CRes.bind_ok]
+
+
+
+/-! ### The Go path after validation -/
+
+theorem goPath_ok_of_validated (ctx : Ctx) (h : validateFile ctx = .ok ()) : goPath ctx = .ok () := by
+  unfold goPath
+  have h1 : firstErr (fun n => do let _ ← title n; pure ()) ctx.self.declaredNames = .ok () := by
+    apply firstErr_of_all
+    intro n _
+    obtain ⟨r, hr⟩ := titleServiceName_isOk n []
+    show (title n >>= fun _ => pure ()) = .ok ()
+    unfold title
+    rw [hr]; rfl
+  have h2 : firstErr (fun t => do let _ ← underlying ctx (typedefLimit ctx + 2) t; pure ()) ctx.self.usedTypes = .ok () := by
+    apply firstErr_of_all
+    intro t _
+    obtain ⟨r, hr⟩ := underlying_ok_of_validated ((validateFile_ok_iff ctx).mp h).typedefs t (typedefLimit ctx + 2) (Nat.le_refl _)
+    show (underlying ctx (typedefLimit ctx + 2) t >>= fun _ => pure ()) = .ok ()
+    rw [hr]; rfl
+  rw [h1]
+  exact h2
+
+
+
+/-! ### `CleanGenParam` -/
+
+theorem splitOn_ne_nil (sep : Char) (s : Name) : splitOn sep s ≠ [] := by
+  induction s with
+  | nil => simp [splitOn]
+  | cons c cs ih =>
+    unfold splitOn
+    by_cases h : c = sep
+    · simp [h]
+    · simp only [h, if_false]
+      cases hs : splitOn sep cs with
+      | nil => exact absurd hs ih
+      | cons w ws => simp
+
+theorem splitOn_length_of_mem (sep : Char) (s : Name) (h : sep ∈ s) : 2 ≤ (splitOn sep s).length := by
+  induction s with
+  | nil => cases h
+  | cons c cs ih =>
+    unfold splitOn
+    by_cases hc : c = sep
+    · simp only [hc, if_true, List.length_cons]
+      have := splitOn_ne_nil sep cs
+      cases hs : splitOn sep cs with
+      | nil => exact absurd hs this
+      | cons w ws => simp
+    · simp only [hc, if_false]
+      have hm : sep ∈ cs := by
+        cases h with
+        | head => exact absurd rfl hc
+        | tail _ hm => exact hm
+      have := ih hm
+      cases hs : splitOn sep cs with
+      | nil => rw [hs] at this; simp at this
+      | cons w ws => rw [hs] at this; simpa using this
+
+theorem goIndex_ok_of_lt (l : List α) (i : Nat) (h : i < l.length) : ∃ a, goIndex l (i : Int) = .ok a := by
+  refine ⟨l[i], ?_⟩
+  unfold goIndex
+  simp [h]
+
+theorem cleanOptions_not_panic (lang : Name) (os : List Name) : ∀ acc p, cleanOptions lang os acc ≠ .panic p := by
+  induction os with
+  | nil => intro acc p h; cases h
+  | cons o os ih =>
+    intro acc p
+    unfold cleanOptions
+    have hne := splitOn_ne_nil '=' o
+    cases hs : splitOn '=' o with
+    | nil => exact absurd hs hne
+    | cons k rest =>
+      have h0 : goIndex (k :: rest) 0 = .ok k := goIndex_zero_cons k rest
+      simp only [h0, CRes.bind_ok]
+      by_cases hv : validateOption lang k
+      · simp only [hv, Bool.not_true, Bool.false_eq_true, if_false]
+        cases rest with
+        | nil => simp; exact ih _ p
+        | cons v rest' =>
+          have h1 : goIndex (k :: v :: rest') 1 = .ok v := by simp [goIndex]
+          simp [h1]
+          exact ih _ p
+      · simp [hv]
+
+theorem cleanGenParam_not_panic (gen : Name) : ∀ p, cleanGenParam gen ≠ .panic p := by
+  intro p
+  unfold cleanGenParam
+  by_cases hc : gen.contains ':' = true
+  · simp only [hc, Bool.not_true, Bool.false_eq_true, if_false]
+    have hmem : ':' ∈ gen := by simpa using hc
+    have hl := splitOn_length_of_mem ':' gen hmem
+    cases hs : splitOn ':' gen with
+    | nil => rw [hs] at hl; simp at hl
+    | cons a rest =>
+      cases rest with
+      | nil => rw [hs] at hl; simp at hl
+      | cons b rest' =>
+        have h0 : goIndex (a :: b :: rest') 0 = .ok a := goIndex_zero_cons _ _
+        have h1 : goIndex (a :: b :: rest') 1 = .ok b := by simp [goIndex]
+        simp only [h0, h1, CRes.bind_ok]
+        cases hm : cleanOptions a (if b.contains ',' = true then splitOn ',' b else [b]) [] with
+        | ok m => simp
+        | err e => simp
+        | panic q => exact absurd hm (cleanOptions_not_panic _ _ _ q)
+  · have hc' : gen.contains ':' = false := by simpa using hc
+    rw [hc']
+    intro h; cases h
+
+
 end FV.Compile
